@@ -425,3 +425,13 @@ Definition additive_segs (l : loc) (segs : list (op * N)) : bool :=
   forallb (fun on => negb (clobbers l (fst on))) segs.
 Definition key_incremented (k : N) (segs : list (op * N)) : bool :=
   existsb (fun on => incr_of_key k (fst on) && negb (snd on =? 0)) segs.
+
+(* ---- a stage and its WaitGroup.  Start(): for each worker  wg.Add(1); go worker().
+   worker():  defer wg.Done()  is its FIRST defer, so it runs LAST: Incr; body; Decr; Done.
+   Stop():  cancel(); wg.Wait()  - returns once the counter is observed to be 0. *)
+Definition wg_done (c : cid) : prog := act (Add (LWg c) (W - 1)).
+Definition stage_worker (c : cid) (body : list op) : prog := seq (worker c body) (wg_done c).
+Definition stop_returned (c : cid) (m : mem) : bool := get m (LWg c) =? 0.
+(* the order a worker would have with  defer wg.Done()  registered AFTER  defer XRoutinesDecr() *)
+Definition stage_worker_bad (c : cid) (body : list op) : prog :=
+  seq (counter_incr c 1) (seq (compile body) (seq (wg_done c) (counter_decr c 1))).
